@@ -195,6 +195,35 @@ def left_null_vector(rows):
     return None
 
 
+def inverse_matrix(rows):
+    """untrusted helper (exact, Fractions): the inverse of a square matrix, or None when it is singular.
+    Its answer is only used as a certificate that the extracted checker verifies (check_sing_report)."""
+    n = len(rows)
+    aug = [list(map(F, rows[i])) + [F(1) if i == j else F(0) for j in range(n)] for i in range(n)]
+    for c in range(n):
+        p = next((i for i in range(c, n) if aug[i][c] != 0), None)
+        if p is None:
+            return None
+        aug[c], aug[p] = aug[p], aug[c]
+        pv = aug[c][c]
+        aug[c] = [x / pv for x in aug[c]]
+        for i in range(n):
+            if i != c and aug[i][c] != 0:
+                f = aug[i][c]
+                aug[i] = [a - f * b for a, b in zip(aug[i], aug[c])]
+    return [r[n:] for r in aug]
+
+
+def repaired_matrix(rows, singr, singc):
+    """the matrix ILLbasis_factor goes on with after a singular report: column singc[i] := unit column of row singr[i]"""
+    n = len(rows)
+    new = [r[:] for r in rows]
+    for r_, c_ in zip(singr, singc):
+        for i in range(n):
+            new[i][c_] = F(1) if i == r_ else F(0)
+    return new
+
+
 # ----------------------------------------------------------------------------- model runs under a time budget
 
 def budget_model_queries(qs, M, budget, per_chunk=60.0, chunk_weight=60000, jobs=16, drv="drv_fac"):
